@@ -811,6 +811,25 @@ def install_std_models(P):
     def _(m, fr, a, mm):
         return as_slice(a[0]).n == 0
 
+    @M(r'^(?:std::vec::|alloc::vec::)?from_elem::<(.+)>$', regex=True)
+    def _(m, fr, a, mm):
+        n = conc_usize(a[1], 'vector length')
+        if n > (1 << 20):
+            raise Unsupported('vec![x; n] with n = %d' % n)
+        return Vec([a[0]] * n)
+
+    @M(r'^Vec::<.*>::into_boxed_slice$', regex=True)
+    def _(m, fr, a, mm):
+        v = _load1(a[0])
+        items = v.items
+        if items and all(x is items[0] for x in items):
+            return Ref([Arr(len(items), items[0], {})], 0)
+        return Ref([Arr(len(items), items[0] if items else I(0, 'u8'), dict(enumerate(items)))], 0)
+
+    @M(r'^<Box<\[.+\]> as (Deref|DerefMut)>::(deref|deref_mut)$', regex=True)
+    def _(m, fr, a, mm):
+        return as_slice(a[0])
+
     @M(r'^Vec::<.*>::(extend_from_slice|append)$', regex=True)
     def _(m, fr, a, mm):
         v = _load1(a[0])
